@@ -93,7 +93,7 @@ def Driver.converged (d : Driver) : Conv :=
 
 /-- the driver after the iterations with the given `(initial, final)` qualities -/
 def Driver.ofHist (maxIter : Int) (tol : Rat) (hist : List (Rat × Rat)) : Driver :=
-  { maxIter := maxIter, tol := tol, its := hist.zipIdx.map (fun (h, i) => { index := i, initial := h.1, final := h.2 }) }
+  { maxIter := maxIter, tol := tol, its := hist.mapIdx (fun i h => { index := i, initial := h.1, final := h.2 }) }
 
 inductive Summary where
   /-- `start_quality, end_quality, abs_improvement, rel_improvement` -/
